@@ -61,7 +61,17 @@ class PestGrammarError(Exception):
                 break
 
         if target_line_index == -1:
-            raise ValueError("index is out of bounds for the given string")
+            # `index` is at the end of the text.
+            if not lines:
+                return 1, 0, "", "", ""
+
+            last_line = lines[-1]
+            if last_line.endswith("\n"):
+                # On a new, empty line.
+                return len(lines) + 1, 0, last_line.rstrip(), "", ""
+
+            target_line_index = len(lines) - 1
+            index = cumulative_length
 
         # Line number (1-based)
         line_number = target_line_index + 1
